@@ -156,13 +156,12 @@ func runCheck(prop, tier string, seed int) int {
 	violations := 0
 	var knownHit []map[string]any
 	var failed []*Obligation
+	var vacuous []string
 	for _, o := range all {
 		ans := o.Res.Answer
 		if o.IsCanary {
 			if ans != "sat" {
-				fmt.Printf("ENGINE: vacuity canary of %s not satisfiable (%s): preconditions or assumptions are contradictory\n", o.Func, ans)
-				writeEvidence(prop, tier, seed, all, keys, notes, 0, nil, time.Since(t0), "vacuity")
-				return undecided("vacuous contract in " + o.Func)
+				vacuous = append(vacuous, fmt.Sprintf("%s (%s)", o.Name, ans))
 			}
 			continue
 		}
@@ -212,6 +211,12 @@ func runCheck(prop, tier string, seed int) int {
 		prop, len(keys), counted, discharged, len(knownHit), violations, time.Since(t0).Seconds())
 	if violations > 0 {
 		return 1
+	}
+	if len(vacuous) > 0 {
+		for _, v := range vacuous {
+			fmt.Printf("ENGINE: reachability check not satisfiable: %s — a precondition, assumption or clause antecedent is contradictory or no longer reachable\n", v)
+		}
+		return undecided("vacuous clause: " + vacuous[0])
 	}
 	if counted == 0 {
 		return undecided("no obligations generated (vacuity guard)")
